@@ -452,9 +452,359 @@ theorem pinv_ret {ea : List Item} {tr : List Ev} (h : PInv 4 ea tr) : PInv 5 ea 
   · intro h0; omega
   · intro _
     refine ⟨by simp [isShutRet], ?_, ?_, ?_⟩
-    · simp [evsBefore_append, h4, evsBefore, isShutRet, startsOf_append, startsOf]
-    · simp [evsBefore_append, h4, evsBefore, isShutRet, endsOf_append, endsOf]
+    · simp [evsBefore_append, h4, evsBefore, isShutRet, startsOf]
+    · simp [evsBefore_append, h4, evsBefore, isShutRet, endsOf]
     · simp [evsAfter_append, h4, evsAfter, isShutRet, startsOf]
   · rw [earlyItems_append_single, h.early]; simp [h.req1 (by omega)]
+
+/-! ## the invariants along a step -/
+
+theorem releaseOwner_length (cs : List CSt) (f : Nat) (o : Option Nat) : (releaseOwner cs f o).length = cs.length := by
+  cases o with
+  | none => rfl
+  | some i => simp only [releaseOwner]; split <;> simp
+
+/-- the configuration and the number of consumers never change -/
+theorem step_static {s s' : State} {l : Label} (hs : Step s l s') : s'.cfg = s.cfg ∧ s'.cons.length = s.cons.length := by
+  cases hs <;> simp [finalise, releaseOwner_length]
+
+/-- a flight that has not ended: `Shutdown` has not returned -/
+theorem not_returned_of_live {s : State} (hr : Reachable s) {f : Nat} {fl : Flight} (hfl : s.flights[f]? = some fl)
+    (hs : fl.st ≠ .done) : s.phase ≠ 5 := by
+  intro hp
+  exact hs ((C03_quiet hr hp).2.2.2.2.1 fl (mem_of_getElem? hfl))
+
+theorem pinv_step {s s' : State} {l : Label} {tr : List Ev} {calls : Nat} {pd : List (Nat × Nat)}
+    (hr : Reachable s) (h : PInv s.phase s.early tr) (hs : Step s l s') :
+    PInv s'.phase s'.early (tr ++ Rec.evs ⟨s, tr, calls, pd⟩ l) := by
+  cases hs with
+  | offer b => exact pinv_offer h b
+  | read i b late rest hc hq hg => simp only [Rec.evs, List.append_nil]; exact h
+  | exit i hc hp hq => simp only [Rec.evs, List.append_nil]; exact h
+  | sendSync i b hc hb => simp only [Rec.evs, List.append_nil]; exact h
+  | consume i b flush keep hc hb hp => simp only [Rec.evs, List.append_nil]; exact h
+  | spawn i b rest hc hw => simp only [Rec.evs, List.append_nil]; exact h
+  | timerTake b ht hc => simp only [Rec.evs, List.append_nil]; exact h
+  | timerSpawn b ht hw => simp only [Rec.evs, List.append_nil]; exact h
+  | timerExit ht hp => simp only [Rec.evs, List.append_nil]; exact h
+  | expStart f fl hfl hs =>
+    exact pinv_call h _ rfl (not_returned_of_live hr hfl (by cases hs with | inl h1 => simp [h1] | inr h1 => simp [h1]))
+  | expEndDrop f fl o hfl hs =>
+    have hp := not_returned_of_live hr hfl (by simp [hs])
+    simp only [Rec.evs]
+    split
+    · exact pinv_call h _ rfl hp
+    · simp only [List.append_nil]; exact h
+  | expEndAgain f fl hfl hs hr' hp0 =>
+    have hp := not_returned_of_live hr hfl (by simp [hs])
+    simp only [Rec.evs]
+    split
+    · exact pinv_call h _ rfl hp
+    · simp only [List.append_nil]; exact h
+  | expEndKeep f fl hfl hs hr' hp1 =>
+    have hp := not_returned_of_live hr hfl (by simp [hs])
+    simp only [Rec.evs]
+    split
+    · exact pinv_call h _ rfl hp
+    · simp only [List.append_nil]; exact h
+  | giveUp f fl kept hfl hs hk => simp only [Rec.evs, List.append_nil]; exact h
+  | shutRetry hp => rw [hp] at h; exact pinv_req h
+  | shutQueue hp =>
+    simp only [Rec.evs, List.append_nil]
+    show PInv 2 s.early tr
+    exact pinv_silent h (.inr ⟨by omega, by omega, by omega, by omega⟩)
+  | join hp hall =>
+    simp only [Rec.evs, List.append_nil]
+    show PInv 3 s.early tr
+    exact pinv_silent h (.inr ⟨by omega, by omega, by omega, by omega⟩)
+  | shutBatcher hp hh =>
+    simp only [Rec.evs, List.append_nil]
+    show PInv 4 s.early tr
+    exact pinv_silent h (.inr ⟨by omega, by omega, by omega, by omega⟩)
+  | shutSpawn b hh hp hw => simp only [Rec.evs, List.append_nil]; exact h
+  | shutWait hp hb => rw [hp] at h; exact pinv_ret h
+
+theorem cinv_step {s s' : State} {l : Label} {tr : List Ev} {calls : Nat} {pd : List (Nat × Nat)}
+    (h : CInv s.flights tr pd) (hs : Step s l s') :
+    CInv s'.flights (tr ++ Rec.evs ⟨s, tr, calls, pd⟩ l) (Rec.pendAfter ⟨s, tr, calls, pd⟩ l) := by
+  cases hs with
+  | offer b => exact cinv_quiet h _ rfl
+  | read i b late rest hc hq hg => simp only [Rec.evs, Rec.pendAfter, List.append_nil]; exact h
+  | exit i hc hp hq => simp only [Rec.evs, Rec.pendAfter, List.append_nil]; exact h
+  | sendSync i b hc hb => simp only [Rec.evs, Rec.pendAfter, List.append_nil]; exact cinv_new h b (some i)
+  | consume i b flush keep hc hb hp => simp only [Rec.evs, Rec.pendAfter, List.append_nil]; exact h
+  | spawn i b rest hc hw => simp only [Rec.evs, Rec.pendAfter, List.append_nil]; exact cinv_new h b none
+  | timerTake b ht hc => simp only [Rec.evs, Rec.pendAfter, List.append_nil]; exact h
+  | timerSpawn b ht hw => simp only [Rec.evs, Rec.pendAfter, List.append_nil]; exact cinv_new h b none
+  | timerExit ht hp => simp only [Rec.evs, Rec.pendAfter, List.append_nil]; exact h
+  | expStart f fl hfl hs =>
+    simp only [Rec.evs, Rec.pendAfter, hfl, Option.map_some, Option.getD_some]
+    exact cinv_start h calls hfl (by cases hs with | inl h1 => simp [h1] | inr h1 => simp [h1])
+  | expEndDrop f fl o hfl hs =>
+    obtain ⟨c, hc⟩ := h.look f fl hfl hs
+    cases hl : pd.lookup f with
+    | none => exact absurd hc (lookup_none hl c)
+    | some c' =>
+      simp only [Rec.evs, Rec.pendAfter, hl]
+      exact cinv_stop h hfl (by simp) rfl rfl (by cases o <;> simp [failOf]) (mem_of_lookup hl)
+  | expEndAgain f fl hfl hs hr hp0 =>
+    obtain ⟨c, hc⟩ := h.look f fl hfl hs
+    cases hl : pd.lookup f with
+    | none => exact absurd hc (lookup_none hl c)
+    | some c' =>
+      simp only [Rec.evs, Rec.pendAfter, hl]
+      exact cinv_stop h hfl (by simp) rfl rfl (.inr ⟨rfl, rfl⟩) (mem_of_lookup hl)
+  | expEndKeep f fl hfl hs hr hp =>
+    obtain ⟨c, hc⟩ := h.look f fl hfl hs
+    cases hl : pd.lookup f with
+    | none => exact absurd hc (lookup_none hl c)
+    | some c' =>
+      simp only [Rec.evs, Rec.pendAfter, hl]
+      exact cinv_stop h hfl (by simp) rfl rfl (.inr ⟨rfl, rfl⟩) (mem_of_lookup hl)
+  | giveUp f fl kept hfl hs hk =>
+    simp only [Rec.evs, Rec.pendAfter, List.append_nil]
+    exact cinv_idle h hfl (by simp [hs]) (by simp) rfl rfl rfl
+  | shutRetry hp => exact cinv_quiet h _ rfl
+  | shutQueue hp => simp only [Rec.evs, Rec.pendAfter, List.append_nil]; exact h
+  | join hp hall => simp only [Rec.evs, Rec.pendAfter, List.append_nil]; exact h
+  | shutBatcher hp hh => simp only [Rec.evs, Rec.pendAfter, List.append_nil]; exact h
+  | shutSpawn b hh hp hw => simp only [Rec.evs, Rec.pendAfter, List.append_nil]; exact cinv_new h b none
+  | shutWait hp hb => exact cinv_quiet h _ rfl
+
+/-! ## the joint invariant over the records of a run -/
+
+structure RInv (cfg : Cfg) (n : Nat) (r : Rec) : Prop where
+  reach : Reachable r.s
+  cfg : r.s.cfg = cfg
+  cons : r.s.cons.length = n
+  shape : PInv r.s.phase r.s.early r.tr
+  calls : CInv r.s.flights r.tr r.pending
+
+theorem rinv_start (cfg : Cfg) (n w : Nat) (t : Bool) : RInv cfg n (Rec.start cfg n w t) :=
+  ⟨Reachable.init cfg n w t, rfl, by simp [Rec.start, init], pinv_init, cinv_init⟩
+
+theorem rinv_step {cfg : Cfg} {n : Nat} {r r' : Rec} {l : Label} (h : RInv cfg n r) (hs : r.step l = some r') : RInv cfg n r' := by
+  obtain ⟨hf, htr, hpd⟩ := step_spec hs
+  have hst := fire_step hf
+  obtain ⟨h1, h2⟩ := step_static hst
+  refine ⟨Reachable.step l h.reach hf, h1.trans h.cfg, h2.trans h.cons, ?_, ?_⟩
+  · rw [htr]; exact pinv_step h.reach h.shape hst
+  · rw [htr, hpd]; exact cinv_step h.calls hst
+
+theorem rinv_run {cfg : Cfg} {n : Nat} : ∀ (ls : List Label) {r r' : Rec}, RInv cfg n r → r.run ls = some r' → RInv cfg n r'
+  | [], r, r', h, hr => by simp only [Rec.run, Option.some.injEq] at hr; exact hr ▸ h
+  | l :: ls, r, r', h, hr => by
+    simp only [Rec.run] at hr
+    cases hs : r.step l with
+    | none => simp [hs] at hr
+    | some r1 => simp only [hs] at hr; exact rinv_run ls (rinv_step h hs) hr
+
+/-- the state of a recorded run is a reachable state of the LTS -/
+theorem rec_reachable (cfg : Cfg) (n w : Nat) (t : Bool) (ls : List Label) (r : Rec)
+    (hr : (Rec.start cfg n w t).run ls = some r) : Reachable r.s :=
+  (rinv_run ls (rinv_start cfg n w t) hr).reach
+
+/-! ## the clauses of the monitors -/
+
+theorem attemptsOf_pre {tr : List Ev} (h : startsOf (evsBefore isShutRet tr) = startsOf tr) (x : Item) :
+    attemptsOf (evsBefore isShutRet tr) x = attemptsOf tr x := by
+  simp only [attemptsOf, h]
+
+theorem failedFor_pre {tr : List Ev} (h1 : startsOf (evsBefore isShutRet tr) = startsOf tr)
+    (h2 : endsOf (evsBefore isShutRet tr) = endsOf tr) (x : Item) :
+    failedFor (evsBefore isShutRet tr) x = failedFor tr x := by
+  simp only [failedFor, h1, h2]
+
+/-- every call of a flight whose batch contains `x` is a recorded call that contained `x` -/
+theorem attempts_le_attemptsOf {cfg : Cfg} {n : Nat} {r : Rec} (h : RInv cfg n r) {fl : Flight} (hfl : fl ∈ r.s.flights) {x : Item}
+    (hx : x ∈ fl.batch) : fl.attempts ≤ attemptsOf r.tr x := by
+  rw [h.calls.att x]
+  have := le_sum_map (attW x) _ fl hfl
+  simpa [attW, hx] using this
+
+/-- "returned", no call open at the return, no call after the return -/
+theorem bridge_common {cfg : Cfg} {n : Nat} {r : Rec} (h : RInv cfg n r) (hp : r.s.phase = 5) :
+    (verdict r.tr).returned = true ∧ (verdict r.tr).openCalls = [] ∧ (verdict r.tr).lateCalls = [] := by
+  obtain ⟨h1, h2, h3, h4⟩ := h.shape.ret5 hp
+  have hdone := (C03_quiet h.reach hp).2.2.2.2.1
+  refine ⟨h1, ?_, ?_⟩
+  · simp only [verdict, h2, h3]
+    rw [List.filter_eq_nil_iff]
+    intro c hc
+    obtain ⟨p, hp1, hp2⟩ := List.mem_map.mp hc
+    obtain ⟨c0, b⟩ := p
+    simp only at hp2; subst hp2
+    have hes := mem_startsOf.mp hp1
+    cases h.calls.opn c0 b hes with
+    | inl h5 =>
+      obtain ⟨fd, h5⟩ := h5
+      have : c0 ∈ (endsOf r.tr).map (·.1) := List.mem_map.mpr ⟨(c0, fd), mem_endsOf.mpr h5, rfl⟩
+      simp [this]
+    | inr h5 =>
+      obtain ⟨f, h5⟩ := h5
+      obtain ⟨fl, h6, h7, _⟩ := h.calls.pend f c0 h5
+      have := hdone fl (mem_of_getElem? h6)
+      rw [h7] at this; simp at this
+  · simp only [verdict, h4, List.map_nil]
+
+/-- the four clauses of the memory monitor that do not count the calls exactly -/
+theorem bridge_memory_core (cfg : Cfg) (n w : Nat) (t : Bool) (ls : List Label) (r : Rec)
+    (hm : cfg.persistent = false) (hn : 0 < n)
+    (hr : (Rec.start cfg n w t).run ls = some r) (hp : r.s.phase = 5) :
+    (verdict r.tr).returned = true ∧ (verdict r.tr).undrained = [] ∧ (verdict r.tr).openCalls = [] ∧
+      (verdict r.tr).lateCalls = [] := by
+  have h := rinv_run ls (rinv_start cfg n w t) hr
+  obtain ⟨h1, h4, h5⟩ := bridge_common h hp
+  refine ⟨h1, ?_, h4, h5⟩
+  obtain ⟨_, h2, _, _⟩ := h.shape.ret5 hp
+  have hcons : r.s.cons ≠ [] := by
+    intro he
+    have := h.cons; rw [he] at this; simp at this; omega
+  simp only [verdict]
+  rw [List.filter_eq_nil_iff]
+  intro x hx
+  rw [h.shape.early] at hx
+  obtain ⟨fl, hfl, hxb, _, hat, _⟩ := C03_memory_drained h.reach hp (by rw [h.cfg]; exact hm) hcons x hx
+  have := attempts_le_attemptsOf h hfl hxb
+  rw [attemptsOf_pre h2]
+  simp; omega
+
+/-! ## exact counting: the `duplicated` clause -/
+
+theorem sum_attW_zero (x : Item) : ∀ (fs : List Flight), (∀ gl ∈ fs, x ∉ gl.batch) → (fs.map (attW x)).sum = 0
+  | [], _ => rfl
+  | a :: fs, h => by
+    have h1 : attW x a = 0 := by simp [attW, h a List.mem_cons_self]
+    have h2 := sum_attW_zero x fs (fun gl hgl => h gl (List.mem_cons_of_mem _ hgl))
+    simp only [List.map_cons, List.sum_cons, h1, h2]
+
+/-- `x` lies in exactly one flight, once: the calls that contained `x` are that flight's calls -/
+theorem sum_attW_unique (x : Item) :
+    ∀ (fs : List Flight) (fl : Flight), fl ∈ fs → x ∈ fl.batch → (flightItems fs).count x = 1 → (fs.map (attW x)).sum = fl.attempts
+  | [], fl, h, _, _ => by simp at h
+  | a :: fs, fl, h, hx, hc => by
+    simp only [flightItems, List.flatMap_cons, List.count_append] at hc
+    simp only [List.map_cons, List.sum_cons]
+    by_cases ha : x ∈ a.batch
+    · have h1 : 0 < a.batch.count x := List.count_pos_iff.mpr ha
+      have hnot : ∀ gl ∈ fs, x ∉ gl.batch := by
+        intro gl hgl hxg
+        have : 0 < (fs.flatMap (·.batch)).count x := List.count_pos_iff.mpr (List.mem_flatMap.mpr ⟨gl, hgl, hxg⟩)
+        omega
+      have hz := sum_attW_zero x fs hnot
+      have hfa : fl = a := by
+        cases List.mem_cons.mp h with
+        | inl h2 => exact h2
+        | inr h2 => exact absurd hx (hnot fl h2)
+      subst hfa
+      simp [attW, ha, hz]
+    · have h1 : a.batch.count x = 0 := List.count_eq_zero.mpr ha
+      have hfl : fl ∈ fs := by
+        cases List.mem_cons.mp h with
+        | inl h2 => subst h2; exact absurd hx ha
+        | inr h2 => exact h2
+      have ih := sum_attW_unique x fs fl hfl hx (by simp only [flightItems]; omega)
+      simp [attW, ha, ih]
+
+theorem failedFor_of_mem {tr : List Ev} {c : Nat} {b : List Item} {x : Item} (h1 : Ev.es c b ∈ tr) (h2 : Ev.ee c true ∈ tr)
+    (hx : x ∈ b) : failedFor tr x = true := by
+  simp only [failedFor, List.any_eq_true]
+  exact ⟨(c, b), mem_startsOf.mpr h1, by simp [hx, mem_endsOf.mpr h2]⟩
+
+/-- memory queue: the trace of a run that reached "returned" passes the memory monitor -/
+theorem bridge_memory (cfg : Cfg) (n w : Nat) (t : Bool) (ls : List Label) (r : Rec)
+    (hm : cfg.persistent = false) (hn : 0 < n)
+    (hr : (Rec.start cfg n w t).run ls = some r) (hp : r.s.phase = 5) (hu : r.s.accepted.Nodup) :
+    checkMemory r.tr = true := by
+  have h := rinv_run ls (rinv_start cfg n w t) hr
+  obtain ⟨h1, h2, h4, h5⟩ := bridge_memory_core cfg n w t ls r hm hn hr hp
+  have h3 : (verdict r.tr).duplicated = [] := by
+    obtain ⟨_, hS, hE, _⟩ := h.shape.ret5 hp
+    have hmem : r.s.cfg.persistent = false := by rw [h.cfg]; exact hm
+    have hcons : r.s.cons ≠ [] := by
+      intro he
+      have := h.cons; rw [he] at this; simp at this; omega
+    simp only [verdict]
+    rw [List.filter_eq_nil_iff]
+    intro x hx
+    rw [h.shape.early] at hx
+    rw [attemptsOf_pre hS, failedFor_pre hS hE]
+    cases hfail : failedFor r.tr x with
+    | true => simp
+    | false =>
+      obtain ⟨fl, hfl, hxb, _, _, hone⟩ := C03_memory_drained h.reach hp hmem hcons x hx
+      have hf0 : fl.failures = 0 := by
+        cases hfa : fl.failures with
+        | zero => rfl
+        | succ k =>
+          obtain ⟨f, hf⟩ := List.mem_iff_getElem?.mp hfl
+          obtain ⟨c, hc1, hc2⟩ := h.calls.fail f fl hf (by omega)
+          rw [failedFor_of_mem hc1 hc2 hxb] at hfail; simp at hfail
+      have hacc : r.s.accepted.count x = 1 := by
+        rw [hu.count, if_pos ((inv_reachable h.reach).sub x hx)]
+      have hcnt := C03_memory_no_duplication h.reach hp hmem hcons x hx hacc
+      have hatt : attemptsOf r.tr x = 1 := by
+        rw [h.calls.att x, sum_attW_unique x _ fl hfl hxb hcnt]; exact hone hf0
+      simp [hatt]
+  simp [checkMemory, h1, h2, h3, h4, h5]
+
+/-- persistent queue: the trace of a run that reached "returned" passes the persistent monitor, "recovered" being what is
+still in storage -/
+theorem bridge_persistent (cfg : Cfg) (n w : Nat) (t : Bool) (ls : List Label) (r : Rec)
+    (hpq : cfg.persistent = true)
+    (hr : (Rec.start cfg n w t).run ls = some r) (hp : r.s.phase = 5) :
+    checkPersistent r.tr r.s.stored = true := by
+  have h := rinv_run ls (rinv_start cfg n w t) hr
+  obtain ⟨h1, h4, h5⟩ := bridge_common h hp
+  have h2 : lostPersistent r.tr r.s.stored = [] := by
+    obtain ⟨_, hS, _, _⟩ := h.shape.ret5 hp
+    simp only [lostPersistent]
+    rw [List.filter_eq_nil_iff]
+    intro x hx
+    rw [h.shape.early] at hx
+    rw [attemptsOf_pre hS]
+    cases C03_persistent_kept h.reach (by rw [h.cfg]; exact hpq) x hx with
+    | inl hst => simp [hst]
+    | inr hfl =>
+      obtain ⟨fl, hfl, hxb, _, _, hat⟩ := hfl
+      have := attempts_le_attemptsOf h hfl hxb
+      have hne : attemptsOf r.tr x ≠ 0 := by omega
+      simp [hne]
+  simp [checkPersistent, h1, h2, h4, h5]
+
+/-! ## non-vacuity: the hypotheses are met by concrete runs (the demo schedules of `Props/C03.lean`) -/
+
+/-- memory queue, default batcher, retry on: a failed call, a retry interrupted by the shutdown, a late offer -/
+def demoRec : Option Rec := (Rec.start { persistent := false, batching := true, retry := true } 1 1 true).run demoSchedule
+
+example : (demoRec.map (fun r => (r.s.phase, decide r.s.accepted.Nodup, r.pending))) = some (5, true, []) := by decide
+example : (demoRec.map (·.tr)) =
+    some [.acc [1, 2], .acc [3, 4, 5], .es 0 [1, 2, 3], .ee 0 true, .shutReq, .acc [9], .es 1 [4, 5, 9], .ee 1 false, .shutRet] := by
+  decide
+example : (demoRec.map (fun r => checkMemory r.tr)) = some true := by decide
+
+/-- persistent queue, disabled batcher, two consumers: one request kept by an interrupted retry, one never read -/
+def demoPRec : Option Rec := (Rec.start { persistent := true, batching := false, retry := true } 2 0 false).run demoPersistent
+
+example : (demoPRec.map (fun r => (r.s.phase, r.s.stored))) = some (5, [1, 3]) := by decide
+example : (demoPRec.map (·.tr)) =
+    some [.acc [1], .acc [2], .acc [3], .es 0 [1], .ee 0 true, .es 1 [2], .shutReq, .ee 1 false, .shutRet] := by decide
+example : (demoPRec.map (fun r => checkPersistent r.tr r.s.stored)) = some true := by decide
+
+/-! ## the property-level statements (counted obligations; they live here because this module imports `Props/C03.lean`) -/
+
+/-- **Bridge, memory queue.** The observable trace of EVERY run of the LTS that reaches "Shutdown returned" (any schedule,
+configuration, re-partition, backend behaviour; unique item ids) is accepted by the monitor that judges the traces of the real
+exporter. -/
+theorem C03_bridge_memory (cfg : Cfg) (n w : Nat) (t : Bool) (ls : List Label) (r : Rec)
+    (hm : cfg.persistent = false) (hn : 0 < n)
+    (hr : (Rec.start cfg n w t).run ls = some r) (hp : r.s.phase = 5) (hu : r.s.accepted.Nodup) :
+    checkMemory r.tr = true := bridge_memory cfg n w t ls r hm hn hr hp hu
+
+/-- **Bridge, persistent queue** ("recovered" = what is still in storage). -/
+theorem C03_bridge_persistent (cfg : Cfg) (n w : Nat) (t : Bool) (ls : List Label) (r : Rec)
+    (hpq : cfg.persistent = true)
+    (hr : (Rec.start cfg n w t).run ls = some r) (hp : r.s.phase = 5) :
+    checkPersistent r.tr r.s.stored = true := bridge_persistent cfg n w t ls r hpq hr hp
 
 end OtelVerif.C03
